@@ -219,6 +219,8 @@ def _flow(c):
         base = D.ConditionalDiagonalNormal([f], context_encoder=LinEnc(ctxdim, 2 * f))
     elif b == "diag":
         base = D.DiagonalNormal([f])
+    elif b == "mog":
+        base = D.MADEMoG(features=f, hidden_features=4, context_features=ctxdim, num_blocks=1, num_mixture_components=1)
     return FL.Flow(t, base, embedding_net=emb)
 
 
@@ -228,7 +230,7 @@ def _flow_valid(c):
     return True
 
 
-reg(DSubject("Flow", {"transform": ["ar_affine", "coupling_rq", "lu_leaky", "inverse_ar"], "features": [2, 1, 3], "base": ["standard", "conditional", "diag"], "context": ["raw", None, "embedded", "embedded_mlp"]},
+reg(DSubject("Flow", {"transform": ["ar_affine", "coupling_rq", "lu_leaky", "inverse_ar"], "features": [2, 1, 3], "base": ["standard", "conditional", "diag", "mog"], "context": ["raw", None, "embedded", "embedded_mlp"]},
              _flow, lambda c: (c["features"],), ctx_shape=lambda c: None if c["context"] is None else ((2,) if c["context"] == "raw" else (3,)), is_flow=True, valid=_flow_valid))
 
 
